@@ -1,12 +1,13 @@
 #!/bin/bash
-# usage: run_seed.sh <seed id> [props...]   apply /verif/seeded/<id>/patch.diff to /repo, run checks, undo
+# usage: run_seed.sh <seed id> [props...]   apply /verif/seeded/<id>/patch.diff to a scratch copy of /repo's working
+# tree (so that concurrent runs never see a modified /repo), run the checks on it, remove the copy
 ID=$1; shift
-cd /repo || exit 2
-git diff --quiet || { echo "/repo not clean"; exit 2; }
-git apply /verif/seeded/$ID/patch.diff || { echo "patch does not apply"; exit 2; }
+D=$(mktemp -d /tmp/chess-seed.XXXXXX)
+trap 'rm -rf "$D"' EXIT
+rsync -a --exclude target --exclude .git /repo/ "$D"/ || exit 2
+(cd "$D" && patch -p1 -s --no-backup-if-mismatch -i /verif/seeded/$ID/patch.diff) || { echo "patch does not apply"; exit 2; }
 PROPS="$@"
 [ -z "$PROPS" ] && PROPS=$(python3 -c "import json;print(json.load(open('/verif/seeded/$ID/meta.json'))['property'])")
 for P in $PROPS; do
-  /verif/check $P --no-evidence 2>&1 | grep -E "^  C|VIOLATION|INCONCLUSIVE|^PASS|^FAIL" | cut -c1-330
+  /verif/check $P --repo "$D" --no-evidence 2>&1 | grep -E "^  C|VIOLATION|INCONCLUSIVE|^PASS|^FAIL" | cut -c1-330
 done
-git checkout -- .
